@@ -19,7 +19,6 @@ import (
 	"sort"
 	"strings"
 	"testing"
-	"time"
 
 	"github.com/anishathalye/porcupine"
 	"github.com/iotaledger/hive.go/ds"
@@ -1405,7 +1404,8 @@ func lineariz(s *simrt.Sim, m porcupine.Model, ops []porcupine.Operation) porcup
 	if len(ops) == 0 {
 		return porcupine.Ok
 	}
-	r := porcupine.CheckOperationsTimeout(m, ops, 10*time.Second)
+	r, steps := hx.CheckBounded(m, ops, 2000000)
+	s.Probe("porcupine-model-steps" + hx.StepBucket(steps))
 	if r == porcupine.Unknown {
 		s.Probe("porcupine-unknown")
 	}
